@@ -45,6 +45,8 @@ def gen_cases(ctx):
   for i in range(ctx.n):
     k = i % 20
     kind = "crystals" if k == 19 else ("random" if k % 3 == 2 else "rtl")
+    if i % 100 == 7:
+      kind = "xproc"     # once per 100 cases: the same arrangements from other interpreters (other string-hash seeds)
     yield {"kind": kind, "seed": int(rng.randint(2**31 - 1))}
 
 
@@ -182,6 +184,47 @@ def _run_random(ctx, rng, st):
   return nf > rank, core.digest(["random", nf, rank, nl, seed])
 
 
+def _run_xproc(ctx, rng, st):
+  """'A deterministic function of the seed': the arrangement must not depend on the interpreter it is computed in
+  (iteration order of sets / dicts of strings changes with PYTHONHASHSEED).  Same configurations, this process and two
+  children with other hash seeds."""
+  import json, os, subprocess, sys
+  cfgs = []
+  for _ in range(10):
+    nf = int(rng.randint(3, 9))
+    rank = int(rng.randint(2, nf + 1))
+    nl = max(2, int(np.ceil(nf / rank)) + int(rng.randint(1, 4)))
+    cfgs.append({"what": "random", "names": ["feat_%s" % "abcdefghij"[i] for i in range(nf)], "monos": [int(rng.choice([0, 1])) for _ in range(nf)],
+                 "nl": nl, "rank": rank, "seed": int(rng.randint(0, 1000))})
+  for _ in range(6):
+    n_inc, n_unc = int(rng.randint(1, 5)), int(rng.randint(1, 5))
+    rank = int(rng.randint(2, 4))
+    cfgs.append({"what": "rtl", "shapes": {"increasing": n_inc, "unconstrained": n_unc}, "rank": rank,
+                 "nl": int(np.ceil((n_inc + n_unc) / rank)) + int(rng.randint(0, 3)), "seed": int(rng.randint(0, 1000))})
+  results = {}
+  for hs in ("0", "1", "2"):
+    env = dict(os.environ, PYTHONHASHSEED=hs, TF_CPP_MIN_LOG_LEVEL="3")
+    try:
+      r = subprocess.run([sys.executable, "-B", "-m", "tflv.children.c17_child"], input=json.dumps(cfgs), capture_output=True, text=True,
+                         timeout=600, env=env, cwd=os.path.dirname(os.path.dirname(os.path.dirname(os.path.abspath(__file__)))))
+      line = [l for l in r.stdout.splitlines() if l.startswith("C17CHILD ")]
+      if not line:
+        ctx.note("xproc-child-failed")
+        ctx.ev("xproc/child-failed")
+        return False, None
+      results[hs] = json.loads(line[-1][len("C17CHILD "):])
+    except subprocess.TimeoutExpired:
+      ctx.note("xproc-child-timeout")
+      return False, None
+  for k, c in enumerate(cfgs):
+    same = results["0"][k] == results["1"][k] == results["2"][k]
+    ctx.check("arrangement/same-in-every-interpreter", same,
+              "%s arrangement for seed %d differs between interpreters with different PYTHONHASHSEED" % (c["what"], c["seed"]),
+              info={"config": c, "hashseed0": results["0"][k], "hashseed1": results["1"][k], "hashseed2": results["2"][k]})
+  ctx.cls("xproc")
+  return True, core.digest(["xproc", cfgs])
+
+
 def _run_crystals(ctx, rng, st):
   tfl, pl = st["tfl"], st["pl"]
   nf = int(rng.randint(3, 8))
@@ -242,4 +285,4 @@ def _run_crystals(ctx, rng, st):
 def run_case(ctx, case):
   st = _ensure()
   rng = np.random.RandomState(case["seed"])
-  return {"rtl": _run_rtl, "random": _run_random, "crystals": _run_crystals}[case["kind"]](ctx, rng, st)
+  return {"rtl": _run_rtl, "random": _run_random, "crystals": _run_crystals, "xproc": _run_xproc}[case["kind"]](ctx, rng, st)
